@@ -11,12 +11,12 @@ CONSTANTS
   MLearners = {}
   PreVoteOn = FALSE
   CheckQuorumOn = FALSE
-  MaxTerm = 2
+  MaxTerm = 1
   MaxLog = 2
   MaxNet = 4
   MaxCrashes = 0
   MaxProposals = 0
-  MaxDepth = 60
+  MaxDepth = 36
   AllowDrop = TRUE
   AllowDup = FALSE
   AllowAsync = FALSE
@@ -26,8 +26,8 @@ CONSTANTS
   EagerReady = TRUE
   QuiescentTicks = TRUE
   MaxLeaderTicks = 0
-  TickNodes = {1, 2}
-  MaxDrops = 0
+  TickNodes = {1}
+  MaxDrops = 1
   MaxTransfers = 0
   TransferTargets = {}
   MaxConf = 0
